@@ -12,7 +12,7 @@
 use crate::rec::{self, Log, TraceEv};
 use crate::util::{self, epoch};
 use serde_json::json;
-use std::collections::{BTreeMap, VecDeque};
+use std::collections::{BTreeMap, BTreeSet, VecDeque};
 use std::time::Duration;
 use tokio::io::AsyncReadExt;
 use turmoil::net::{TcpListener, TcpStream};
@@ -75,6 +75,8 @@ struct Scn {
     ephemeral: Option<(u16, u16)>,
     /// the accepting side keeps a stream this long after it saw the peer's close
     accept_linger_ms: u64,
+    /// the accepting side never reads: it lingers and drops the stream with the nonce unread (RST)
+    accept_rst: bool,
     /// the listener host's software returns Ok(()) after its last listener lifetime (the host
     /// stays registered but is no longer scheduled)
     listener_returns: bool,
@@ -139,6 +141,15 @@ async fn listener_program(log: Log<Ev>, s: Scn) -> turmoil::Result {
                     let log = log.clone();
                     let end = s.end_ms;
                     let linger = s.accept_linger_ms;
+                    if s.accept_rst {
+                        let log = log.clone();
+                        tokio::task::spawn_local(async move {
+                            tokio::time::sleep(Duration::from_millis(linger + 6)).await;
+                            drop(st); // the nonce is unread: the peer is reset
+                            log.push(Ev::AcceptedDropped { peer: peer.to_string() });
+                        });
+                        continue;
+                    }
                     tokio::task::spawn_local(async move {
                         let mut b = [0u8; 8];
                         let left = end.saturating_sub(turmoil::elapsed().as_millis() as u64);
@@ -288,6 +299,7 @@ fn gen(seed: u64) -> Scn {
     // can reuse the address pair of a stream the listener side still holds
     let mut ephemeral = None;
     let mut accept_linger_ms = 0;
+    let mut accept_rst = false;
     let mut listener_returns = false;
     if !flood && nhosts >= 2 && r.chance(0.08) {
         flood = true; // no link faults in this shape either
@@ -298,6 +310,12 @@ fn gen(seed: u64) -> Scn {
         let h = r.range(1, nhosts as u64 - 1) as usize;
         let mut at = 3;
         accept_linger_ms = r.pick_copy(&[0u64, 4, 25]);
+        accept_rst = r.chance(0.4);
+        if accept_rst {
+            // aim the reset at the moment the connector's port comes round again
+            let spacing = 2 * max_ms + 4 * tick_ms + 3;
+            accept_linger_ms = (nports as u64 * spacing).saturating_sub(6 + r.range(0, 2 * max_ms + 3));
+        }
         for _ in 0..r.range(4, 9) {
             // strictly one after the other: never more live streams than ports (documented panic)
             let hold = r.range(0, 3);
@@ -349,6 +367,7 @@ fn gen(seed: u64) -> Scn {
         tcp_cap,
         ephemeral,
         accept_linger_ms,
+        accept_rst,
         listener_returns,
     }
 }
@@ -527,10 +546,13 @@ fn scenario(s: Scn) -> ScenarioOut {
     }
     if s.ephemeral.is_some() {
         out.count("port_wrap_scenarios", 1);
+        if s.accept_rst {
+            out.count("port_wrap_scenarios_with_resetting_acceptor", 1);
+        }
     }
     // merge
     let mut items: Vec<Item> = hev.iter().map(|(q, st, e)| Item::H(*q, *st, e)).collect();
-    items.extend(trace.iter().filter(|t| t.protocol == "TCP SYN" || t.msg == "Bind" || t.msg == "Unbind").map(Item::T));
+    items.extend(trace.iter().filter(|t| t.protocol == "TCP SYN" || t.protocol == "TCP RST" || t.msg == "Bind" || t.msg == "Unbind").map(Item::T));
     items.sort_by_key(|i| match i {
         Item::H(q, _, _) => *q,
         Item::T(t) => t.seq,
@@ -541,6 +563,7 @@ fn scenario(s: Scn) -> ScenarioOut {
     let mut held_pairs: BTreeMap<String, Vec<(u64, Option<u64>)>> = BTreeMap::new();
     let mut queued_at: BTreeMap<usize, u64> = BTreeMap::new();
     let mut listener_returned_step: Option<u64> = None;
+    let mut reset_half_open: BTreeSet<usize> = BTreeSet::new();
     let mut lo_fifo: VecDeque<usize> = VecDeque::new(); // same-host connects awaiting loopback delivery
     let mut bound: Option<bool> = None; // Some(loopback_bind)
     let mut queue: VecDeque<usize> = VecDeque::new();
@@ -599,6 +622,7 @@ fn scenario(s: Scn) -> ScenarioOut {
                     let mut found = None;
                     while let Some(id) = queue.pop_front() {
                         let pair_in_use = conns[id].src.as_ref().map(|a| held_pairs.get(a).map(|iv| iv.iter().any(|(from, to)| *from < *seq && to.map(|t| t > queued_at.get(&id).copied().unwrap_or(0)).unwrap_or(true))).unwrap_or(false)).unwrap_or(false);
+                        let pair_in_use = pair_in_use || reset_half_open.contains(&id);
                         if conns[id].src.as_deref() == Some(peer.as_str()) && !pair_in_use {
                             found = Some(id);
                             break;
@@ -676,6 +700,17 @@ fn scenario(s: Scn) -> ScenarioOut {
                 }
             },
             Item::T(t) => {
+                if t.protocol == "TCP RST" && t.msg == "Delivered" {
+                    // a reset that reaches a connector whose request is still pending destroys its
+                    // half-open socket (the stream has no identity beyond the address pair, the
+                    // reset may belong to an earlier connection): that request can only be refused
+                    for (id, c) in conns.iter().enumerate() {
+                        if c.src.as_deref() == Some(t.dst.as_str()) && matches!(c.state, CState::InFlight | CState::Queued) && c.ret.is_none() {
+                            reset_half_open.insert(id);
+                        }
+                    }
+                    continue;
+                }
                 if t.protocol != "TCP SYN" {
                     continue;
                 }
@@ -850,7 +885,12 @@ fn scenario(s: Scn) -> ScenarioOut {
                     let got = nonces.get(&ai).cloned().unwrap_or_default();
                     // the nonce travels as a data segment: a partition may drop
                     // it and a hold may delay it past the end of the run
-                    if !matches!(s.fault, Fault::None) {
+                    if s.accept_rst {
+                        // the accepting side never reads in this shape
+                        if !got.is_empty() {
+                            out.violate("nonce-mismatch", format!("C12|nonce-mismatch|{shape}"), format!("stream accepted from {local} delivered nonces {got:?} although the accepting side never read"), desc.clone());
+                        }
+                    } else if !matches!(s.fault, Fault::None) {
                         if !got.is_empty() && got != vec![id as u64] {
                             out.violate("nonce-mismatch", format!("C12|nonce-mismatch|{shape}"), format!("stream accepted from {local} delivered nonces {got:?}, expected [{id}]"), desc.clone());
                         }
@@ -873,6 +913,7 @@ fn scenario(s: Scn) -> ScenarioOut {
             );
         }
     }
+    out.count("requests_reset_while_half_open", reset_half_open.len() as u64);
     out.count("connectors", conns.len() as u64);
     out.count("cancelled_connectors", conns.iter().filter(|c| c.cancel.is_some()).count() as u64);
     out.count("listener_lifetimes", s.lifetimes.len() as u64);
@@ -927,6 +968,6 @@ fn fin() -> Finish<'static> {
             "prompt = within 2 steps of the deciding wire/API event".into(),
         ],
         min_distinct: 100,
-        required_counters: vec!["syns_in_flight_at_partition", "held_syns_at_partition", "connects_accepted", "refusals_observed", "cancelled_connectors_skipped_by_accept", "syns_dropped_by_partition", "nonces_matched", "final_count_samples", "give_up_flood_scenarios", "port_wrap_scenarios", "requests_refused_because_the_address_pair_is_still_in_use"],
+        required_counters: vec!["syns_in_flight_at_partition", "held_syns_at_partition", "connects_accepted", "refusals_observed", "cancelled_connectors_skipped_by_accept", "syns_dropped_by_partition", "nonces_matched", "final_count_samples", "give_up_flood_scenarios", "port_wrap_scenarios", "port_wrap_scenarios_with_resetting_acceptor", "requests_refused_because_the_address_pair_is_still_in_use"],
     }
 }
